@@ -670,7 +670,8 @@ class EnumConverter(Generic[TEnum, T_NP], JsonConverter[TEnum, T_NP]):
         return self._value_to_name[value]
 
     def numpy_to_json(self, value: T_NP) -> object:
-        return self.to_json(self._enum_type(value))
+        # int(): values outside the defined ones are only accepted as Python ints (OutOfRangeEnum._missing_)
+        return self.to_json(self._enum_type(int(value)))  # type: ignore
 
     def from_json(self, json_object: object) -> TEnum:
         if isinstance(json_object, int):
